@@ -181,6 +181,18 @@ CLAIMED['C19'] = dict(
          'sub-operations.',
     design='5/C19')
 
+CLAIMED['C07'] = dict(
+    text='Fragments produced by the real encoder are regrouped into P-DATA-TF PDUs by a symbolic composition (bit-vector) and '
+         'fed PDU by PDU to the real DIMSEDecoder: message id symbolic, data-set bytes symbolic (2 bytes + concrete tail over '
+         'several fragments), fragment sizes giving 2..7 fragments, in-memory and file-backed reception (real get_file / '
+         'write_meta on an in-memory file, negotiated transfer syntax symbolic). Asserted: completion signalled exactly at the '
+         'PDU carrying the last fragment, same message class / context / command set / data bytes; the file handed over is '
+         'preamble + DICM + a meta group of correct length naming the negotiated transfer syntax + exactly the transmitted '
+         'bytes (read by an independent Part-10 reader); all 23 command-field codes dispatch to the PS3.7 class.',
+    note=TRUSTED + 'tempfile.TemporaryFile replaced by an in-memory file; quick tier: fragment lists of up to 5 (all 2^(n-1) '
+         'compositions), thorough up to 7; long file-backed data sets use concrete content.',
+    design='5/C07')
+
 NOT_YET = 'check not built yet in this revision (see DESIGN.md section 5 for the plan)'
 
 NOT_APPLICABLE = {}
